@@ -3,7 +3,8 @@
    library, decoded the `caller` member of the record that came out and located that
    (file, line, function) in the real call stack captured while the record was being written:
    got = [k |-> "user", i |-> j] when it is user frame j (0 = the issuing statement, j = the
-   j-th wrapper), k = "lib" for a frame of the library / log / log/slog / runtime, "none" when
+   j-th wrapper; for a cell with site # "go" the frames sit behind //line directives and the
+   decoded file must be EXACTLY the hardened file name the runtime reports for the frame), k = "lib" for a frame of the library / log / log/slog / runtime, "none" when
    it is no frame of the stack, "missing" when the record has no caller member.
 
    One line is consumed per step (a monitor).  A line is accepted when its cell is a cell of the
@@ -21,11 +22,11 @@ VARIABLES i, nok, bad, nbad, badn, dev, devn
 TLog == ndJsonDeserialize(TraceFile)
 
 CellOf(e) == [ep |-> e.ep, fam |-> e.fam, fmt |-> e.fmt, kind |-> e.kind, inl |-> e.inl, via |-> e.via,
-              skip |-> e.skip, other |-> e.other, depth |-> e.depth]
+              skip |-> e.skip, other |-> e.other, depth |-> e.depth, site |-> e.site]
 GotOf(e) == [k |-> e.got.k, i |-> e.got.i]
 
 WellFormed(e) ==
-    /\ {"id", "ep", "fam", "fmt", "kind", "inl", "via", "skip", "other", "depth", "got"} \subseteq DOMAIN e
+    /\ {"id", "ep", "fam", "fmt", "kind", "inl", "via", "skip", "other", "depth", "site", "got"} \subseteq DOMAIN e
     /\ e.fam \in Families
     /\ IsCell(CellOf(e))
 
